@@ -34,6 +34,10 @@ var env *stackenv.Env
 //
 //	prompt: answer at once          slow: answer after 1 s (in time)
 //	late:   answer after Ms > 5000  drop: never answer
+//	held:   answer sent after Ms (< 5000) and read by the client's connection reader, whose hand-over to the
+//	        handler is held (dispatch hook in the harness's copy of the Diameter library) until the peer has
+//	        received the subscriber's next request on that interface: the stale answer is dispatched from the
+//	        earlier request's connection while the later request is waiting, before the later request's own answer
 type Action struct {
 	Kind string `json:"kind"`
 	Ms   int    `json:"ms,omitempty"`
@@ -75,6 +79,85 @@ type subPlan struct {
 	nAbmf     int
 	nReserve  int
 	nRating   int
+	held      map[string][]*hold // by peer: answers read by the client and not yet dispatched
+	staleRuns int                // held answers dispatched while a later request was waiting
+}
+
+type holdKey struct{ code, hbh, e2e uint32 }
+
+type hold struct {
+	key        holdKey
+	release    chan struct{}
+	byRequest  bool // released because the next request arrived (not by the bound)
+	dispatched chan struct{}
+}
+
+var holds sync.Map // holdKey -> *hold
+
+// beforeDispatch runs in the reader task of every Diameter connection of this process.
+func beforeDispatch(c diam.Conn, m *diam.Message) {
+	if m.Header.CommandFlags&diam.RequestFlag != 0 {
+		return
+	}
+	v, ok := holds.Load(holdKey{m.Header.CommandCode, m.Header.HopByHopID, m.Header.EndToEndID})
+	if !ok {
+		return
+	}
+	hd := v.(*hold)
+	holds.Delete(hd.key)
+	dbg("hook holds", hd.key)
+	select {
+	case <-hd.release:
+	case <-time.After(12 * time.Second):
+	}
+	dbg("hook lets go", hd.key, hd.byRequest)
+	// the dispatch itself follows at once in this task; give it a moment before the peer goes on
+	go func() { time.Sleep(40 * time.Millisecond); close(hd.dispatched) }()
+}
+
+// releaseHeld lets every held answer of this subscriber on this interface be dispatched now; it returns when
+// they have been.
+func (p *subPlan) releaseHeld(peer string) bool {
+	p.mu.Lock()
+	hs := p.held[peer]
+	delete(p.held, peer)
+	p.mu.Unlock()
+	dbg("releaseHeld", peer, len(hs))
+	for _, hd := range hs {
+		hd.byRequest = true
+		close(hd.release)
+	}
+	for _, hd := range hs {
+		select {
+		case <-hd.dispatched:
+		case <-time.After(2 * time.Second):
+		}
+	}
+	if len(hs) > 0 {
+		dbg("releaseHeld done", peer)
+		p.mu.Lock()
+		p.staleRuns += len(hs)
+		p.mu.Unlock()
+	}
+	return len(hs) > 0
+}
+
+func dbg(a ...interface{}) {
+	if os.Getenv("VERIF_DEBUG") != "" {
+		fmt.Fprintln(os.Stderr, append([]interface{}{"DEBUG", time.Now().Format("05.000")}, a...)...)
+	}
+}
+
+func (p *subPlan) hold(peer string, m *diam.Message) {
+	dbg("hold registered", peer, m.Header.HopByHopID, m.Header.EndToEndID)
+	hd := &hold{key: holdKey{m.Header.CommandCode, m.Header.HopByHopID, m.Header.EndToEndID}, release: make(chan struct{}), dispatched: make(chan struct{})}
+	holds.Store(hd.key, hd)
+	p.mu.Lock()
+	if p.held == nil {
+		p.held = map[string][]*hold{}
+	}
+	p.held[peer] = append(p.held[peer], hd)
+	p.mu.Unlock()
 }
 
 var (
@@ -91,7 +174,7 @@ func planOf(sub string) *subPlan {
 func schedule(a Action, f func()) {
 	switch a.Kind {
 	case "drop":
-	case "late", "slow":
+	case "late", "slow", "held":
 		go func() { time.Sleep(time.Duration(a.Ms) * time.Millisecond); f() }()
 	case "boundary":
 		// aimed at the client's 5 s timer itself: Us microseconds after the request was received
@@ -145,9 +228,13 @@ func startPeers(rfPort, abmfPort int, pemF, keyF string) error {
 		ex.tariff = int64(2 + p.nRating%5) // every rating answer carries its own unit cost
 		p.exchanges = append(p.exchanges, ex)
 		p.mu.Unlock()
+		p.releaseHeld("rating") // a held earlier answer is dispatched now, before this request is answered
 		sua := cdt.ServiceUsageResponse{SessionId: sur.SessionId, EventTimestamp: datatype.Time(time.Now()), ServiceRating: &cdt.ServiceRating{
 			AllowedUnits: datatype.Unsigned32(ex.value), Price: sur.ServiceRating.ConsumedUnits,
 			MonetaryTariff: &cdt.MonetaryTariff{CurrencyCode: 901, RateElement: &cdt.RateElement{CCUnitType: cdt.MONEY, UnitCost: &cdt.UnitCost{ValueDigits: datatype.Integer64(ex.tariff), Exponent: 0}}}}}
+		if ex.action.Kind == "held" {
+			p.hold("rating", m)
+		}
 		schedule(ex.action, func() {
 			a := m.Answer(diam.Success)
 			_ = a.Marshal(&sua)
@@ -177,9 +264,13 @@ func startPeers(rfPort, abmfPort int, pemF, keyF string) error {
 		}
 		p.exchanges = append(p.exchanges, ex)
 		p.mu.Unlock()
+		p.releaseHeld("abmf")
 		cca := cdt.AccountDebitResponse{SessionId: ccr.SessionId, CcRequestType: ccr.CcRequestType, CcRequestNumber: ccr.CcRequestNumber, EventTimestamp: datatype.Time(time.Now()),
 			MultipleServicesCreditControl: &cdt.MultipleServicesCreditControl{RatingGroup: ccr.MultipleServicesCreditControl.RatingGroup,
 				GrantedServiceUnit: &cdt.GrantedServiceUnit{CCTotalOctets: datatype.Unsigned64(ex.value)}}}
+		if ex.action.Kind == "held" {
+			p.hold("abmf", m)
+		}
 		schedule(ex.action, func() {
 			a := m.Answer(diam.Success)
 			_ = a.Marshal(&cca)
@@ -195,6 +286,7 @@ func startPeers(rfPort, abmfPort int, pemF, keyF string) error {
 }
 
 func TestMain(m *testing.M) {
+	diam.VerifBeforeDispatch = beforeDispatch
 	rf, ab := stackenv.FreePort(), stackenv.FreePort()
 	var err error
 	env, err = stackenv.Start(stackenv.Options{OwnPeers: true, RfPort: rf, AbmfPort: ab})
@@ -212,7 +304,12 @@ func TestMain(m *testing.M) {
 	os.Exit(code)
 }
 
-func withheld(a Action) bool { return a.Kind == "drop" || (a.Kind == "late" && a.Ms > 5000) }
+// every update reports this much usage: it is priced with the tariff of the update's own first enquiry
+const usedPerUpdate = 7
+
+func withheld(a Action) bool {
+	return a.Kind == "drop" || (a.Kind == "late" && a.Ms > 5000) || a.Kind == "held"
+}
 
 type scriptResult struct {
 	sig, msg string
@@ -247,12 +344,12 @@ func runScript(sc Script) scriptResult {
 	plansMu.Unlock()
 	now := time.Now()
 	nf := &models.ChfConvergedChargingNfIdentification{NFName: "smf", NodeFunctionality: "SMF"}
-	mk := func() models.ChfConvergedChargingChargingDataRequest {
+	mk := func(used int32) models.ChfConvergedChargingChargingDataRequest {
 		return models.ChfConvergedChargingChargingDataRequest{SubscriberIdentifier: supi, ChargingId: 1, NfConsumerIdentification: nf, InvocationTimeStamp: &now, InvocationSequenceNumber: 1,
 			MultipleUnitUsage: []models.ChfConvergedChargingMultipleUnitUsage{{RatingGroup: 1, RequestedUnit: &models.RequestedUnit{TotalVolume: 10000},
-				UsedUnitContainer: []models.ChfConvergedChargingUsedUnitContainer{{QuotaManagementIndicator: models.QuotaManagementIndicator_ONLINE_CHARGING, TotalVolume: 0, LocalSequenceNumber: 1}}}}}
+				UsedUnitContainer: []models.ChfConvergedChargingUsedUnitContainer{{QuotaManagementIndicator: models.QuotaManagementIndicator_ONLINE_CHARGING, TotalVolume: used, LocalSequenceNumber: 1}}}}}
 	}
-	_, loc, pd := verifapi.Create(mk())
+	_, loc, pd := verifapi.Create(mk(0))
 	if pd != nil {
 		r.sig, r.msg = "HARNESS-create", fmt.Sprint(pd)
 		return r
@@ -276,7 +373,7 @@ func runScript(sc Script) scriptResult {
 		ch := make(chan out, 1)
 		t0 := time.Now()
 		go func() {
-			rsp, pd := verifapi.Update(mk(), ref)
+			rsp, pd := verifapi.Update(mk(usedPerUpdate), ref)
 			ch <- out{rsp, pd}
 		}()
 		var o out
@@ -308,7 +405,21 @@ func runScript(sc Script) scriptResult {
 				resEx = ex
 			}
 		}
+		// the reported usage is priced with the tariff the update's own first rating enquiry was answered with;
+		// delta is the change of the reservation apart from that price
+		var firstCost *exchange
+		for _, ex := range mine {
+			if ex.peer == "rating" {
+				if ex.role == "cost" {
+					firstCost = ex
+				}
+				break
+			}
+		}
 		delta := post.Reserved[1] - pre.Reserved[1]
+		if firstCost != nil {
+			delta += usedPerUpdate * firstCost.tariff
+		}
 		granted := int64(-1)
 		if o.rsp != nil {
 			for _, mi := range o.rsp.MultipleUnitInformation {
@@ -317,7 +428,14 @@ func runScript(sc Script) scriptResult {
 				}
 			}
 		}
-		desc := fmt.Sprintf("update %d (took %.1f s) of script %+v: reservation %d -> %d, granted %d; exchanges of this update: %s", i, el.Seconds(), sc, pre.Reserved[1], post.Reserved[1], granted, describe(mine))
+		desc := fmt.Sprintf("update %d (took %.1f s, reporting %d used units) of script %+v: reservation %d -> %d, granted %d; exchanges of this update: %s", i, el.Seconds(), usedPerUpdate, sc, pre.Reserved[1], post.Reserved[1], granted, describe(mine))
+		if abmfEx == nil && delta != 0 {
+			r.sig, r.msg = "crosstalk/rating/foreign-tariff-priced-usage", desc+fmt.Sprintf(" -- no credit-control exchange took place, so the reservation should have changed by the price of the usage at this update's own tariff only; it is off by %d", delta)
+			return r
+		}
+		if os.Getenv("VERIF_DEBUG") != "" {
+			fmt.Fprintln(os.Stderr, "DEBUG", desc, "staleRuns", p.staleRuns)
+		}
 		// (1) no cross-talk: what the operation acted on is the answer to its own request
 		if abmfEx != nil && abmfEx.action.Kind == "boundary" {
 			// the answer races the timeout: either outcome is this update's own business, nothing else is
@@ -348,7 +466,7 @@ func runScript(sc Script) scriptResult {
 				r.sig, r.msg = "crosstalk/rating/foreign-answer", desc+fmt.Sprintf(" -- the answer to this update's own rating request (racing the timeout) allowed %d units", resEx.value)
 				return r
 			}
-		} else if resEx != nil && abmfEx != nil && !withheld(abmfEx.action) && abmfEx.action.Kind != "boundary" {
+		} else if resEx != nil && (abmfEx == nil || (!withheld(abmfEx.action) && abmfEx.action.Kind != "boundary")) {
 			if withheld(resEx.action) {
 				lateSeen = true
 				if granted >= 0 {
@@ -388,6 +506,11 @@ func runScript(sc Script) scriptResult {
 	if lateSeen && laterRequest {
 		r.labels = append(r.labels, "NT:withheld-answer-then-later-request")
 	}
+	p.mu.Lock()
+	if p.staleRuns > 0 {
+		r.labels = append(r.labels, "NT:stale-answer-dispatched-while-later-request-waits")
+	}
+	p.mu.Unlock()
 	for _, st := range sc.Steps {
 		r.labels = append(r.labels, "abmf:"+st.Abmf.Kind, "reserve:"+st.Reserve.Kind)
 	}
@@ -534,7 +657,9 @@ func TestC18Surplus(t *testing.T) {
 }
 
 func genAction(t *rapid.T, n string) Action {
-	switch rapid.SampledFrom([]string{"prompt", "prompt", "slow", "late", "late", "drop", "dup", "boundary", "boundary"}).Draw(t, n) {
+	switch rapid.SampledFrom([]string{"prompt", "prompt", "slow", "late", "late", "drop", "dup", "boundary", "boundary", "held", "held"}).Draw(t, n) {
+	case "held":
+		return Action{Kind: "held", Ms: rapid.SampledFrom([]int{0, 2000, 4800}).Draw(t, n+"HeldMs")}
 	case "dup":
 		return Action{Kind: "dup"}
 	case "boundary":
@@ -572,6 +697,10 @@ func genBatch(t *rapid.T) Batch {
 	b.Scripts = append(b.Scripts,
 		Script{Steps: []Step{{Abmf: Action{Kind: "prompt"}, Reserve: Action{Kind: "dup"}}, {Abmf: Action{Kind: "prompt"}, Reserve: Action{Kind: "prompt"}}}},
 		Script{Steps: []Step{{Abmf: Action{Kind: "dup"}, Reserve: Action{Kind: "prompt"}}, {Abmf: Action{Kind: "prompt"}, Reserve: Action{Kind: "prompt"}}}})
+	// an answer read in time by the connection's reader but handed over only when the next request is waiting
+	b.Scripts = append(b.Scripts,
+		Script{Steps: []Step{{Abmf: Action{Kind: "held", Ms: 4800}, Reserve: Action{Kind: "prompt"}}, {Abmf: Action{Kind: "prompt"}, Reserve: Action{Kind: "prompt"}}}},
+		Script{Steps: []Step{{Abmf: Action{Kind: "prompt"}, Reserve: Action{Kind: "held", Ms: 4800}}, {Abmf: Action{Kind: "prompt"}, Reserve: Action{Kind: "prompt"}}}})
 	n := h.Scale(12, 20)
 	for i := 0; i < n; i++ {
 		b.Scripts = append(b.Scripts, genScript(t))
